@@ -1,2 +1,8 @@
 import PyOak.Props.C05
 import PyOak.Props.C05Extra
+import PyOak.Props.C05Trails
+import PyOak.Props.C05Depth
+import PyOak.Props.C05Paths
+import PyOak.Props.C05Lookup
+import PyOak.Props.C05PostPaths
+import PyOak.Props.C05BfsPaths
